@@ -142,11 +142,32 @@ static bool visit(int id)
     return true;
 }
 
+/* prior use of the same parser object: walk down the first-child chain as deep as it goes, then reset. The traversal
+ * that follows must be the traversal of a fresh parser (a reset that forgets something only shows after this) */
+static bool PREPASS;
+static void dive_and_reset(void)
+{
+    binson_parser *p = L.p;
+    int id = 0;
+    bool r = D->root_kind == VK_OBJ ? binson_parser_go_into_object(p) : binson_parser_go_into_array(p);
+    while (r) {
+        int ch = D->n[id].first;
+        /* the first container child, or the first child */
+        int pick = -1;
+        for (int c = ch; c >= 0; c = D->n[c].next) { if (!binson_parser_next(p)) { c = -1; break; } if (D->n[c].kind == VK_OBJ || D->n[c].kind == VK_ARR) { pick = c; break; } }
+        if (pick < 0) break;
+        r = D->n[pick].kind == VK_OBJ ? binson_parser_go_into_object(p) : binson_parser_go_into_array(p);
+        id = pick;
+    }
+    vf_count(CT_CALLS, 2);
+    binson_parser_reset(p);
+}
 static bool traverse_c03(void)
 {
     binson_parser *p = L.p;
     bool ok = D->root_kind == VK_OBJ ? binson_parser_init_object(p, vf_live_bufptr(&L), L.len) : binson_parser_init_array(p, vf_live_bufptr(&L), L.len);
     if (!ok) return fail("init", "init rejects a valid document (error %d)", (int) p->error_flags);
+    if (PREPASS) dive_and_reset();
     ok = D->root_kind == VK_OBJ ? binson_parser_go_into_object(p) : binson_parser_go_into_array(p);
     vf_count(CT_CALLS, 3);
     if (!ok) return fail("enter-root", "cannot enter the root");
@@ -198,6 +219,7 @@ static bool traverse_c10(void)
     bool isobj = D->root_kind == VK_OBJ;
     bool ok = isobj ? binson_parser_init_object(p, vf_live_bufptr(&L), L.len) : binson_parser_init_array(p, vf_live_bufptr(&L), L.len);
     if (!ok) return fail("init", "init rejects a valid document");
+    if (PREPASS) dive_and_reset();
     uint8_t *out = (uint8_t *) vf_xmalloc(D->len);      /* exactly the input size: one byte more would overflow under ASan */
     memset(out, 0xA5, D->len);
     binson_writer w;
@@ -251,10 +273,15 @@ static bool write_tree(binson_writer *w, int id)
                 memcpy(z, s, (size_t) x->pay_len); z[x->pay_len] = 0;
                 binson_write_string(w, z);
                 free(z);
-            } else binson_write_string_with_len(w, (const char *) s, (size_t) x->pay_len);
+            } else if (x->pay_len == 0 && !(ch & 1)) binson_write_string_with_len(w, NULL, 0);
+            else binson_write_string_with_len(w, (const char *) s, (size_t) x->pay_len);
             break;
         }
-        case VK_BYT: binson_write_bytes(w, D->bytes + x->pay_off, (size_t) x->pay_len); break;
+        case VK_BYT:
+            /* an empty value may come with a NULL pointer (std::vector<uint8_t>().data()) */
+            if (x->pay_len == 0 && (ch & 1)) binson_write_bytes(w, NULL, 0);
+            else binson_write_bytes(w, D->bytes + x->pay_off, (size_t) x->pay_len);
+            break;
         case VK_OBJ: binson_write_object_begin(w); if (!write_tree(w, ch)) return false; binson_write_object_end(w); break;
         case VK_ARR: binson_write_array_begin(w); if (!write_tree(w, ch)) return false; binson_write_array_end(w); break;
         default: return fail("tree", "bad node kind");
@@ -529,6 +556,7 @@ static void on_doc(vf_gen *g, void *u)
     int need = needed_depth(&g->doc);
     run_doc(&g->doc, vf_shape(&g->doc), need);
     run_doc(&g->doc, vf_shape(&g->doc), need + 3);
+    if (!P_C05 && g->doc.nn > 2) { PREPASS = true; run_doc(&g->doc, "same document after a dive to the deepest level and a reset", need); PREPASS = false; }
 }
 
 static void corpus(void)
@@ -581,11 +609,11 @@ static void worker(int w, int W, uint64_t start)
     value_families();
     corpus();
     static const int cls[] = { LC_INT8, LC_NEG16, LC_INT32, LC_NEG64, LC_INTMIN, LC_STR, LC_STR0, LC_STRNUL, LC_STR128, LC_BYT, LC_BYT0, LC_DBL, LC_DBLBIG, LC_TRUE, LC_FALSE, LC_OBJ, LC_ARR };
-    static const vf_name names[] = { { (const uint8_t *) "", 0 }, { (const uint8_t *) "a", 1 }, { (const uint8_t *) "a\0b", 3 }, { (const uint8_t *) "\x80\xff", 2 } };
+    static const vf_name names[] = { { (const uint8_t *) "", 0 }, { (const uint8_t *) "a", 1 }, { (const uint8_t *) "a\0b", 3 }, { (const uint8_t *) "a\0c", 3 }, { (const uint8_t *) "\x80\xff", 2 } };
     static vf_gen g;
     for (int root = VK_OBJ; root <= VK_ARR; root++) {
         memset(&g, 0, sizeof g);
-        g.root_kind = root; g.max_tokens = N_DOC; g.classes = cls; g.nclasses = 17; g.names = names; g.nnames = 4; g.max_obj_depth = 0;
+        g.root_kind = root; g.max_tokens = N_DOC; g.classes = cls; g.nclasses = 17; g.names = names; g.nnames = 5; g.max_obj_depth = 0;
         g.cb = on_doc;
         vf_gen_run(&g);
     }
@@ -604,6 +632,7 @@ static void replay_main(void)
     if (vf_ref_decode(bytes, (size_t) n, kind, 255, &R) != VR_OK) vf_die("replay document is not valid");
     R.bytes = bytes; R.len = (size_t) n; R.root_kind = kind;
     D = &R; LABEL = "replay"; MDEPTH = atoi(md);
+    { char *lb = vf_replay_get(t, "label"); PREPASS = lb && strstr(lb, "after a dive") != NULL; }
     vf_g.wid = 0;
     vf_fatal_describe = describe;
     vf_install_fatal();
@@ -627,7 +656,7 @@ int main(int argc, char **argv)
     static char bound[1000];
     snprintf(bound, sizeof bound,
              "every valid object- and array-rooted document with <= %d value tokens over 15 leaf classes (all four integer widths incl. INT64_MIN, empty / NUL-holding / "
-             "2-byte-length strings, bytes, doubles, booleans) and names {\"\", \"a\", \"a\\0b\", 0x80 0xff}, at max_depth needed and needed+3; carriers {\"a\":v}, [v], "
+             "2-byte-length strings, bytes, doubles, booleans) and names {\"\", \"a\", \"a\\0b\", \"a\\0c\", 0x80 0xff}, at max_depth needed and needed+3; carriers {\"a\":v}, [v], "
              "{<128-byte name>:v} for: all +-2^k+d (k<64,|d|<=3), every integer within %d of +-2^k (k=7..63), %s; doubles: all 2^16 top-16-bit patterns x 5 low "
              "patterns, every byte position x every byte value on 3 bases; string / bytes / name lengths %s; the valid corpus files of <= 500 bytes",
              N_DOC, vf_g.thorough ? 65536 : 2048, vf_g.thorough ? "EVERY integer representable in <= 4 bytes (2^32 values)" : "every integer in [-65536, 65535]",
